@@ -51,6 +51,10 @@ FLAVOURS = {
 # which flavours a property's tiers run in
 PROP_FLAVOURS = {
     "C01": {"quick": ["asm"], "thorough": ["asm", "plain"]},
+    "C02": {"quick": ["asm"], "thorough": ["asm", "plain"]},
+    "C03": {"quick": ["asm"], "thorough": ["asm", "plain"]},
+    "C09": {"quick": ["asm"], "thorough": ["asm", "plain"]},
+    "C10": {"quick": ["asm"], "thorough": ["asm", "plain"]},
 }
 
 ALL_PROPS = ["C%02d" % i for i in range(1, 19)]
@@ -132,6 +136,11 @@ def run_job(job):
     env["VCHECK_BREADCRUMB"] = crumb
     env["VERIF_ROOT"] = ROOT
     env["VERIF_WORK"] = WORK
+    env.setdefault("RAYON_NUM_THREADS", "3")  # 16 shard processes share the cores; explicit pools are built where pool size matters
+    # keep big buffers on the heap instead of mmap/munmap per case (page-fault storms across 16 processes)
+    env.setdefault("MALLOC_MMAP_THRESHOLD_", "1073741824")
+    env.setdefault("MALLOC_TRIM_THRESHOLD_", "2147483648")
+    env.setdefault("MALLOC_TOP_PAD_", "268435456")
     for p in (job["out"], crumb):
         if os.path.exists(p):
             os.remove(p)
@@ -288,6 +297,27 @@ def run_jobs(jobs, workers=None):
         return list(ex.map(run_job, jobs))
 
 
+def run_regress(prop, flavour):
+    """Replay the committed minimal reproductions of earlier failures (they bypass proptest)."""
+    d = os.path.join(REPLAYS, "regress")
+    viol = []
+    n = 0
+    if not os.path.isdir(d):
+        return viol, n
+    for name in sorted(os.listdir(d)):
+        if not name.startswith(prop + "-") or not name.endswith(".json"):
+            continue
+        path = os.path.join(d, name)
+        p = subprocess.run([flavour_bin(flavour), "replay", path, "--strict"], stdout=subprocess.PIPE, stderr=subprocess.PIPE, text=True,
+                           env=dict(os.environ, VERIF_ROOT=ROOT, VERIF_WORK=WORK))
+        n += 1
+        if p.returncode == 1 or p.returncode < 0:
+            viol.append(dict(sub="regress", message=p.stdout[-400:], replay=path, flavour=flavour))
+        elif p.returncode != 0:
+            log("[regress] %s: engine exit %s %s" % (name, p.returncode, p.stderr[-300:]))
+    return viol, n
+
+
 def check(prop, tier, seed):
     t0 = time.time()
     if prop not in PROP_FLAVOURS:
@@ -305,6 +335,9 @@ def check(prop, tier, seed):
     jobs = plan_jobs(prop, tier, seed, flavours, nshards=pre.get("nshards"), extra=pre.get("extra_args"))
     results = run_jobs(jobs, workers=pre.get("workers"))
     post = extras.after(prop, tier, seed)
+    reg_viol, reg_n = run_regress(prop, flavours[0])
+    post.setdefault("violations", []).extend(reg_viol)
+    post.setdefault("coverage", {})["regression_replays"] = reg_n
     ev, violations, engine_errors = merge_results(
         prop, tier, seed, results, t0,
         extra_cov=post.get("coverage"), extra_violations=post.get("violations"), extra_known=post.get("known"),
